@@ -62,6 +62,8 @@ def to_coq(c):
     if k == "bls":
         return "KBls %s %s %s %s %s %s %s" % (nat(c["N"]), nat(c["t"]), nlist(c["signers"]), nat(BLS[c["pert"]]), nat(c["idx"]),
                                               b(c["v1"]), b(c["v2"]))
+    if k == "blspairs":
+        return "KBlsPairs %s %s %s %s %s %s" % (nat(c["N"]), nat(c["t"]), nlist(c["signers"]), nlist(c["makers"]), b(c["v1"]), b(c["v2"]))
     # C08
     if k == "request":
         return "KCReq %s %s %s" % (nat(c["L"]), nlist(c["pattern"]), b(c["accept"]))
@@ -116,7 +118,8 @@ def harness(chk, binary, cmd, seed, tier, name):
 
 
 def replay_doc(binary, cmd, seed, tier, case, what):
-    return dict(what=what, reproduce="build/bin/%s %s -seed %d -tier %s   (harness/%s, built with -tags verif against /repo)" % (binary, cmd, seed, tier, binary),
+    return dict(what=what, reproduce="%s %s -seed %d -tier %s   (harness/%s, built with -tags verif against %s)" % (
+                    os.path.join(vlib.BIN, binary), cmd, seed, tier, binary, vlib.REPO),
                 case=case)
 
 
@@ -168,6 +171,28 @@ def run_c08(chk, seed, tier):
 
 # ------------------------------------------------------------------------------------------------ C09
 
+def pairs_identically_valid(signers, makers, t):
+    """Exact rational arithmetic, independent of the Coq model: with the k-th share made by makers[k] (value F(makers[k])) and
+    combined under the coefficient Go computes for signers[k] (prod over the listed points j != i of j/(j-i)), the aggregate
+    exponent is sum_k lambda_k F(makers[k]).  It equals F(0) for EVERY polynomial F with t coefficients iff
+    sum_k lambda_k makers[k]^j = [j = 0] for j < t.  Then verification must accept; otherwise it accepts only on a proper
+    subspace of polynomials (probability 1/r for a dealt key) and must reject.  E.g. over the signers {1,2,3,4} the coefficients
+    are (4,-6,4,-1): exchanging the shares of signers 1 and 3 leaves the aggregate unchanged (cf. C09_bls_assignment_poly)."""
+    from fractions import Fraction
+    lam = []
+    for i in signers:
+        l = Fraction(1)
+        for j in signers:
+            if j != i:
+                l *= Fraction(j, j - i)
+        lam.append(l)
+    for j in range(t):
+        tot = sum(l * Fraction(m) ** j for l, m in zip(lam, makers))
+        if tot != (1 if j == 0 else 0):
+            return False
+    return True
+
+
 def expected_accept(c):
     """What the property demands of the implementation, independently of the model."""
     k = c["cls"]
@@ -177,6 +202,13 @@ def expected_accept(c):
         return c["pert"] == "none"
     if k in ("pokthr", "bls"):
         return c["pert"] == "honest"
+    if k == "blspairs":
+        # every share under the signer that made it, no signer twice, at least t of them - in whatever order the pairs come -
+        # must verify; a re-pairing must fail unless it provably leaves the aggregate unchanged for every polynomial
+        honest = c["makers"] == c["signers"] and len(set(c["signers"])) == len(c["signers"]) and len(c["signers"]) >= c["t"]
+        valid = pairs_identically_valid(c["signers"], c["makers"], c["t"])
+        assert (not honest) or valid
+        return valid
     return None
 
 
@@ -194,6 +226,7 @@ def run_c09(chk, seed, tier):
     rows = [(c, "ps") for c in ps_rows] + [(c, "psbls") for c in bls_rows]
     hits = 0
     skipped = 0
+    skipped_kinds = collections.Counter()
     model_rows = []
     for c, binary in rows:
         if c["cls"] == "setup" or c["err"].startswith("harness:"):
@@ -202,14 +235,23 @@ def run_c09(chk, seed, tier):
         if c["cls"] == "oracle":
             model_rows.append(c)
             continue
-        if c["err"].startswith("aggregate:") or c["err"].startswith("prover:"):
-            skipped += 1    # the aggregation / proving routine itself refused (e.g. a single signer): no verdict to compare
+        if c["err"].startswith("aggregate: PANIC") or (c["cls"] != "blspairs" and c["err"].startswith("aggregate:")) or c["err"].startswith("prover:"):
+            # the aggregation / proving routine itself refused (a single signer, or one signer listed twice in a list of two:
+            # "empty lagrange coefficient vector" - a panic on the caller's own signer list, recorded, not a verdict)
+            skipped += 1
+            skipped_kinds[c["cls"] + "/" + c["pert"]] += 1
             continue
         model_rows.append(c)
         exp = expected_accept(c)
         bad = None
         if c["panic"]:
             bad = "panic during verification: " + c["err"]
+        elif c.get("side"):
+            bad = "side effect / non-determinism: %s (signers %s, shares made by %s)" % (c["side"], c["signers"], c.get("makers"))
+        elif c["cls"] == "blspairs" and exp is not None and c["v1"] != exp:
+            bad = ("bls.Verifier.AggregateSignatures + Verify, N=%d t=%d, signers %s with the shares of parties %s (%s): %s but must be %s" %
+                   (c["N"], c["t"], c["signers"], c["makers"], c["pert"], "accepted" if c["v1"] else "rejected: " + c["err"],
+                    "accepted" if exp else "rejected"))
         elif c["v1"] != c["v2"]:
             bad = "verifying/signing the same object twice gave different verdicts (first %s, second %s): %s" % (
                 "accept" if c["v1"] else "reject", "accept" if c["v2"] else "reject", c["err"])
@@ -240,17 +282,34 @@ def run_c09(chk, seed, tier):
                                                 all_mismatching=[[m["cls"], m.get("comp"), m["pert"], m["idx"]] for m in mism[:20]]), no_input=True)
     chk.cov["evaluations"] = len(rows) + len(mal)
     chk.cov["distinct_nontrivial"] = len(set(vlib.canon_hash([c["cls"], c.get("N"), c.get("t"), c.get("L"), c.get("comp"), c.get("idx"), c.get("pert"),
-                                                              c.get("path"), c.get("signers")]) for c, _ in rows if c["cls"] != "setup"))
+                                                              c.get("path"), c.get("signers"), c.get("makers")]) for c, _ in rows if c["cls"] != "setup"))
     chk.cov["rule"] = ("perturbation catalogue on real objects of real key generations: every field of a BlindSignature request (cm,u,mPrime,a_i,b_i, "
                        "proof x_i,y_i,s,z,d_i,f_i) and of a SigPoK (psi.x_i, psi.y, Gamma, Phi, h^eps, h'^eps, nu, kappa) x {+generator, same field of another "
                        "session, zero} x {through the byte interface TPS.Sign / Verifier.Verify, on the Go object}, each verified twice; provers lying about "
                        "one witness with the Fiat-Shamir proof recomputed (isolates each verification equation); wrong signer-to-witness assignment, foreign "
                        "witness, key of another DKG, fewer than t witnesses; which arguments the two oracle functions hash; BLS: message bit flipped, each share + "
-                       "generator, aggregate altered/zero/of another message, key of another DKG, rotated assignment, every subset of size t-1; plus malformed "
+                       "generator, aggregate altered/zero/of another message, key of another DKG, rotated assignment, every subset of size t-1; (signer, share) pairs in every order through the public aggregation API and their "
+                       "re-pairings (sorted labels on unsorted shares, two swapped, outsider's share, duplicate signer); plus malformed "
                        "ASN.1 at every parser entry point (no panic). distinct by (class, N, t, L, component, index, perturbation, path, signers)")
     chk.cov["input_distribution"] = dict(collections.Counter("%s/%s" % (c["cls"], c["pert"] if c["cls"] not in ("req", "pok") else c["comp"]) for c, _ in rows))
     chk.cov["malformed_inputs"] = dict(collections.Counter(m["entry"] + ("/panic" if m["panic"] else "/rejected" if m["err"] else "/accepted-or-ignored") for m, _ in mal))
     chk.cov["not_compared"] = skipped
+    chk.cov["not_compared_kinds"] = dict(skipped_kinds)
+    pairs = [c for c, _ in rows if c["cls"] == "blspairs"]
+    chk.cov["bls_signer_share_pairs"] = dict(
+        cases=len(pairs),
+        by_variant=dict(collections.Counter(c["pert"] for c in pairs)),
+        accepted=sum(1 for c in pairs if c["v1"]),
+        distinct_signer_orders=len(set((c["N"], c["t"], tuple(c["signers"])) for c in pairs)),
+        harmless_repairings=[[c["signers"], c["makers"]] for c in pairs if c["makers"] != c["signers"] and
+                             pairs_identically_valid(c["signers"], c["makers"], c["t"])][:10],
+        non_ascending_honest_orders=sum(1 for c in pairs if c["pert"] == "pairs_permuted" and c["signers"] != sorted(c["signers"])),
+        note="through the public bls.Verifier.AggregateSignatures + Verify; every order of the (signer, share) pairs for subsets of up to 4 "
+             "signers (24 random orders beyond), each aggregated twice and verified twice with input copies compared afterwards; "
+             "re-pairings: sorted labels on unsorted shares, two shares swapped, share of an outsider, one signer twice, t-1 signers. "
+             "Expected verdict by exact rational arithmetic (accept iff the re-paired combination reconstructs F(0) for every polynomial): "
+             "a few re-pairings are harmless, e.g. the coefficients over {1,2,3,4} are (4,-6,4,-1), so exchanging the shares of signers 1 and 3 "
+             "yields the very same aggregate - listed under harmless_repairings; the model predicts the same (C09_bls_assignment_poly)")
     chk.cov["model_scenarios_evaluated"] = n_eval
     chk.cov["samples"] = [c for c, _ in rows if c["cls"] == "req" and c["comp"] == "a"][:1] + [c for c, _ in rows if c["cls"] == "pok" and c["comp"] == "hpe"][:1] + \
                          [c for c, _ in rows if c["cls"] == "bls" and c["pert"] == "rotated"][:1] + [c for c, _ in rows if c["cls"] == "reqforge"][:1]
